@@ -758,6 +758,15 @@ func (env *SpecEnv) evalCall(x *SCall) Val {
 		default:
 			return in.freshVal("as_"+sanitize(tn), t, env.f)
 		}
+	case "bit":
+		// bit(b, i): membership of index i in a set.Bits value (declared opaque)
+		argn(2)
+		b, ok := env.eval(x.Args[0]).(Sc)
+		if !ok {
+			env.fail("bit() of a non-Bits value")
+		}
+		in.D.declareFun("bits_contains", []string{b.T.Sort, SInt}, SBool)
+		return Sc{App("bits_contains", SBool, b.T, env.evalInt(x.Args[1]))}
 	case "bigval":
 		// bigval(p): the mathematical value of a *big.Int
 		argn(1)
